@@ -137,6 +137,11 @@ class RandomUtils():
 
     def remove_reserved_words(self, language):
         reserved_words = get_reserved_words(self.resource_path, language)
+        # Identifiers are also used lower-cased and capitalized.
+        reserved_words = {
+            w for w in self.INITIAL_WORDS | self.WORDS
+            if {w, w.lower(), w.capitalize()} & reserved_words
+        }
         self.INITIAL_WORDS = self.INITIAL_WORDS - reserved_words
         self.WORDS = self.WORDS - reserved_words
 
